@@ -52,6 +52,10 @@ func runSmall(c *core.Ctx) []core.Obligation {
 	smallThriftFlagMask(c, b)
 	smallProtoEmptyMap(c, b)
 	smallThriftMismatchConsumes(c, b)
+	smallThriftEmptyMapFirst(c, b)
+	smallCompactLongFormAccepted(c, b)
+	smallTokenizerStringFastPath(c, b)
+	smallClaimedBytesWritten(c, b)
 	smallStringOptionNull(c, b)
 	smallStringOptionMarshaler(c, b)
 	return b.out
@@ -970,6 +974,240 @@ func smallRawVarintByte(c *core.Ctx, b *ob) {
 	}
 	if n == 0 {
 		b.addP(props, core.Discharged, "raw-varint-byte:none", "proto", "no integer is written as a raw byte outside encodeVarint: every length and tag goes through the varint encoder")
+	}
+}
+
+// S30 — a proto encode function that reports "k bytes written" has written them: MarshalTo fills a
+// buffer the caller owns and never clears, so a byte that is claimed but not stored keeps whatever
+// the buffer held (a false bool emitted as 0xAA does not decode). Every path to a return of a
+// positive constant count with a nil error passes a store into the destination (an index store,
+// or a call that is handed the destination).
+func smallClaimedBytesWritten(c *core.Ctx, b *ob) {
+	props := []string{"C16", "C03"}
+	n := 0
+	fns := c.RepoFunctions()
+	sort.Slice(fns, func(i, j int) bool { return shortName(fns[i]) < shortName(fns[j]) })
+	for _, fn := range fns {
+		name := shortName(fn)
+		if fn.Blocks == nil || !strings.HasPrefix(name, "proto.encode") || len(fn.Params) == 0 || fn.Params[0].Type().String() != "[]byte" {
+			continue
+		}
+		dst := fn.Params[0]
+		// blocks that write the destination
+		writes := map[*ssa.BasicBlock]bool{}
+		for _, blk := range fn.Blocks {
+			for _, in := range blk.Instrs {
+				switch x := in.(type) {
+				case *ssa.Store:
+					if ia, ok := x.Addr.(*ssa.IndexAddr); ok && derivesFromValue(ia.X, dst) {
+						writes[blk] = true
+					}
+				case *ssa.Call:
+					for _, a := range x.Call.Args {
+						if derivesFromValue(a, dst) {
+							if bi, isB := x.Call.Value.(*ssa.Builtin); isB && bi.Name() == "len" {
+								continue
+							}
+							writes[blk] = true
+						}
+					}
+				}
+			}
+		}
+		for _, r := range returnsOf(fn) {
+			if len(r.Results) != 2 || !isNilConst(r.Results[1]) {
+				continue
+			}
+			k, isK := constInt(r.Results[0])
+			if !isK || k <= 0 {
+				continue
+			}
+			n++
+			key := fmt.Sprintf("claimed-bytes-written:%s:%d", name, k)
+			// is the return reachable from the entry without passing a writing block?
+			seen := map[*ssa.BasicBlock]bool{}
+			var reach func(x *ssa.BasicBlock) bool
+			reach = func(x *ssa.BasicBlock) bool {
+				if seen[x] || writes[x] {
+					return false
+				}
+				seen[x] = true
+				if x == r.Block() {
+					return true
+				}
+				for _, sc := range x.Succs {
+					if reach(sc) {
+						return true
+					}
+				}
+				return false
+			}
+			if reach(fn.Blocks[0]) {
+				b.addP(props, core.Violation, key, c.InstrPos(r), fmt.Sprintf("%s reports %d byte(s) written on a path that stores nothing into the destination: MarshalTo leaves the caller's stale byte in the message (with a non-zeroed buffer an explicit false bool is emitted as garbage and the message no longer decodes)", name, k))
+			} else {
+				b.addP(props, core.Discharged, key, c.InstrPos(r), "every path to the return writes the destination")
+			}
+		}
+	}
+	if n == 0 {
+		b.addP(props, core.Undecided, "claimed-bytes-written", "-", "no proto encode function returning a constant byte count found")
+	}
+}
+
+// S29 — Tokenizer.String returns the bytes between the quotes as they are only for tokens the
+// scanner classified Unescaped (no escape sequence and nothing to coerce); every other string goes
+// through parseStringUnquote, which resolves escapes *and* replaces ill-formed UTF-8 by U+FFFD like
+// encoding/json. Widening the shortcut ("no backslash in the document") returns raw invalid bytes.
+func smallTokenizerStringFastPath(c *core.Ctx, b *ob) {
+	props := []string{"C17"}
+	key := "tokenizer:string-shortcut-only-unescaped"
+	fn := c.Lookup("json.(*Tokenizer).String")
+	if fn == nil {
+		b.addP(props, core.Undecided, key, "-", "json.(*Tokenizer).String not found")
+		return
+	}
+	unesc := int64(jsonConst(c, "Unescaped"))
+	n, bad := 0, ""
+	for _, r := range returnsOf(fn) {
+		if len(r.Results) != 1 {
+			continue
+		}
+		rv := r.Results[0]
+		for i := 0; i < 3; i++ {
+			switch x := rv.(type) {
+			case *ssa.ChangeType:
+				rv = x.X
+			case *ssa.Convert:
+				rv = x.X
+			}
+		}
+		sl, ok := rv.(*ssa.Slice)
+		if !ok {
+			continue
+		}
+		if f, isLoad := fieldOfLoad(sl.X); !isLoad || !strings.HasSuffix(f, ".Value") {
+			continue
+		}
+		n++
+		guarded := false
+		for _, a := range trueAtoms(r.Block(), 0) {
+			bo, isB := a.(*ssa.BinOp)
+			if !isB || bo.Op != token.EQL {
+				continue
+			}
+			if k, isK := constInt(bo.Y); isK && k == unesc && unesc != 0 {
+				guarded = true
+			}
+		}
+		if !guarded {
+			bad = c.InstrPos(r)
+		}
+	}
+	switch {
+	case n == 0:
+		b.addP(props, core.Info, key, c.FuncPos(fn), "String has no zero-copy shortcut")
+	case bad != "":
+		b.addP(props, core.Violation, key, bad, "Tokenizer.String returns the raw bytes of the token on a path where the token's kind is not known to be Unescaped: a string holding ill-formed UTF-8 (and no backslash anywhere in the document) is returned as it is, where every other path — and encoding/json — yields U+FFFD")
+	default:
+		b.addP(props, core.Discharged, key, c.FuncPos(fn), "the zero-copy shortcut requires kind() == Unescaped")
+	}
+}
+
+// S27 — the compact protocol writes an empty map as the single byte 0x00: no key and value types
+// follow. The map decoder must settle the empty case before it compares the announced types with
+// the expected ones; compared first, the zero types of an empty compact map are a "mismatch"
+// (an error in strict mode).
+func smallThriftEmptyMapFirst(c *core.Ctx, b *ob) {
+	props := []string{"C13", "C04", "C08"}
+	key := "thrift:empty-map-before-type-test"
+	fn := c.Lookup("thrift.decodeFuncMapOf$1")
+	if fn == nil {
+		b.addP(props, core.Undecided, key, "-", "thrift.decodeFuncMapOf$1 not found")
+		return
+	}
+	n, bad := 0, ""
+	for _, blk := range fn.Blocks {
+		for _, in := range blk.Instrs {
+			bo, ok := in.(*ssa.BinOp)
+			if !ok || (bo.Op != token.NEQ && bo.Op != token.EQL) {
+				continue
+			}
+			if !strings.HasSuffix(bo.X.Type().String(), "thrift.Type") || !strings.HasSuffix(bo.Y.Type().String(), "thrift.Type") {
+				continue
+			}
+			if _, isK := bo.X.(*ssa.Const); isK {
+				continue
+			}
+			if _, isK := bo.Y.(*ssa.Const); isK {
+				continue
+			}
+			n++
+			nonEmpty := false
+			for _, e := range dominatingEdges(blk) {
+				c2, isB := e.ifi.Cond.(*ssa.BinOp)
+				if !isB {
+					continue
+				}
+				k, isK := constInt(c2.Y)
+				if !isK || k != 0 || !strings.Contains(texpr(c2.X, 0), "Size") {
+					continue
+				}
+				if (c2.Op == token.EQL && e.succ == 1) || (c2.Op == token.NEQ && e.succ == 0) || (c2.Op == token.GTR && e.succ == 0) {
+					nonEmpty = true
+				}
+			}
+			if !nonEmpty {
+				bad = c.InstrPos(bo)
+			}
+		}
+	}
+	switch {
+	case n == 0:
+		b.addP(props, core.Undecided, key, c.FuncPos(fn), "no comparison of the announced key/value types found")
+	case bad != "":
+		b.addP(props, core.Violation, key, bad, "the map decoder compares the announced key/value types before it has dealt with the empty map: the compact protocol's empty map (one byte, no types) then looks like a type mismatch — a TypeMismatch error in strict mode for a perfectly valid encoding")
+	default:
+		b.addP(props, core.Discharged, key, c.FuncPos(fn), fmt.Sprintf("%d type comparisons, each on a path where the map is known to be non-empty", n))
+	}
+}
+
+// S28 — compact lists and sets: the specification lets a writer use the long form (0xF? followed
+// by a varint size) for any size; only the writer must prefer the short form. The reader may
+// reject a size that overflows, never one that "should have been" in the short form.
+func smallCompactLongFormAccepted(c *core.Ctx, b *ob) {
+	props := []string{"C13", "C08"}
+	key := "compact:list:long-form-any-size:reader"
+	fn := c.Lookup("thrift.(*compactReader).ReadList")
+	if fn == nil {
+		b.addP(props, core.Undecided, key, "-", "thrift.(*compactReader).ReadList not found")
+		return
+	}
+	bad := ""
+	for _, r := range returnsOf(fn) {
+		if len(r.Results) != 2 || isNilConst(r.Results[1]) {
+			continue
+		}
+		for _, e := range dominatingEdges(r.Block()) {
+			c2, isB := e.ifi.Cond.(*ssa.BinOp)
+			if !isB {
+				continue
+			}
+			switch c2.Op {
+			case token.LSS, token.LEQ, token.GTR, token.GEQ:
+			default:
+				continue
+			}
+			for _, op := range []ssa.Value{c2.X, c2.Y} {
+				if k, isK := constInt(op); isK && k >= 0 && k <= 16 {
+					bad = c.InstrPos(r)
+				}
+			}
+		}
+	}
+	if bad != "" {
+		b.addP(props, core.Violation, key, bad, "compactReader.ReadList rejects a list header on the ground of a size comparison with a small constant: a long-form header (0xF? + varint) with a size below 15 is a conformant encoding that other writers may produce, and must decode like the short form")
+	} else {
+		b.addP(props, core.Discharged, key, c.FuncPos(fn), "no rejection depends on how small the size is")
 	}
 }
 
